@@ -5255,3 +5255,89 @@ func c19r11(c *Ctx, r *Report) {
 	})
 	r.floor("calls of fastwalk.Walk", n, 1)
 }
+
+// c09r14: constrain() brings the cursor back into the result list. The clamp has to happen on every path
+// through the function, not only inside the loop that fits items to the window — that loop does not run at all
+// when the window has no row for items (D45: with --height=3 --header-lines=1, or a 2-row terminal, the cursor
+// stayed beyond the end after the list shrank: no current line, accept printed nothing and exited with 1).
+func c09r14(c *Ctx, r *Report) {
+	l := c.L
+	r.rule("C09-R14", "A (must-pass-through)", "P1",
+		"in Terminal.constrain, every path from the entry to a return passes a store of a util.Constrain result into Terminal.cy",
+		"in a window without room for item rows the cursor is never clamped: accept prints nothing although there is a match")
+	cs := l.Fn("fzf", "(*Terminal).constrain")
+	fCy := l.Field("fzf", "Terminal", "cy")
+	if cs == nil || fCy == nil {
+		r.unest("anchors", token.NoPos, nil, "anchors Terminal.constrain / Terminal.cy", "cannot resolve")
+		return
+	}
+	isClamp := func(in ssa.Instruction) bool {
+		st, ok := in.(*ssa.Store)
+		if !ok {
+			return false
+		}
+		if fld, _ := fieldOf(st.Addr); fld != fCy {
+			return false
+		}
+		call, ok := st.Val.(*ssa.Call)
+		return ok && calleeName(call.Common()) == modPath+"/src/util.Constrain"
+	}
+	entry := cs.Blocks[0].Instrs[0]
+	esc := ssa.Instruction(nil)
+	if !isClamp(entry) {
+		esc = pathAvoiding(entry, isReturn, isClamp, nil)
+	}
+	r.check(esc == nil, relName(cs)+":the cursor is clamped on every path", cs.Pos(), cs, "a clamp of cy on every path to the return", "a path through constrain (the fitting loop not entered) leaves the cursor unclamped")
+}
+
+// c08r20: a bracketed paste is applied to the query key by key and compared with a snapshot of the query
+// taken when the paste began; only a difference triggers a search. The snapshot has to be a COPY: the editing
+// actions rewrite Terminal.input in place (D46: `current := []rune(t.input)` converts a []rune to []rune, which
+// copies nothing; a paste containing a backspace changed the snapshot along with the query, no search was
+// requested, and the list kept showing the matches of the old query).
+func c08r20(c *Ctx, r *Report) {
+	l := c.L
+	r.rule("C08-R20", "F (the snapshot does not alias the live query)", "P1",
+		"every value stored into the variable whose address is kept in Terminal.pasting is computed through a call (a copy), never a plain load or conversion of Terminal.input",
+		"after a paste that deletes characters the query on screen is not the query whose results are shown")
+	fPaste := l.Field("fzf", "Terminal", "pasting")
+	fIn := l.Field("fzf", "Terminal", "input")
+	if fPaste == nil || fIn == nil {
+		r.unest("anchors", token.NoPos, nil, "anchors Terminal.pasting / Terminal.input", "cannot resolve")
+		return
+	}
+	n := 0
+	for _, fn := range l.AllFuncs() {
+		if fn.Blocks == nil || fn.Pkg != l.pkg("fzf") {
+			continue
+		}
+		eachInstr(fn, func(in ssa.Instruction) {
+			st, ok := in.(*ssa.Store)
+			if !ok {
+				return
+			}
+			if fld, _ := fieldOf(st.Addr); fld != fPaste {
+				return
+			}
+			al, ok := st.Val.(*ssa.Alloc)
+			if !ok || al.Referrers() == nil {
+				return
+			}
+			for _, ref := range *al.Referrers() {
+				s2, ok := ref.(*ssa.Store)
+				if !ok || s2.Addr != ssa.Value(al) {
+					continue
+				}
+				n++
+				alias := false
+				for w := range backwardSlice(s2.Val, nil, nil) {
+					if fld, _ := loadedField(w); fld == fIn {
+						alias = true
+					}
+				}
+				r.check(!alias, fmt.Sprintf("%s:paste snapshot #%d is a copy", relName(rootFn(fn)), n), s2.Pos(), fn, "the snapshot passes a copying call", "the snapshot is Terminal.input itself (a conversion between identical slice types copies nothing)")
+			}
+		})
+	}
+	r.floor("snapshots kept in Terminal.pasting", n, 1)
+}
